@@ -648,6 +648,7 @@ def body(run, proof_ok):
             seen_cls.add(k)
             ordered_mism.append((idx, v))
     ordered_mism += [m for m in mism if m not in ordered_mism]
+    ordered_mism.sort(key=lambda m: -m[1])
     for idx, v in ordered_mism[:16]:
         o2, l2_ = world.execute(cases[idx], "re%04d" % idx, timeout=3 * SHOOT_TIMEOUT)
         m2 = coq_mismatches(run, "c18re%d" % idx, [coq_case(cases[idx], o2)])
@@ -656,6 +657,7 @@ def body(run, proof_ok):
         else:
             unreproduced.append({"args": cases[idx].args, "first": {k: obs[idx][k] for k in ("rc", "diag", "timeout", "wall")},
                                  "again": {k: o2[k] for k in ("rc", "diag", "timeout", "wall")}})
+    confirmed.sort(key=lambda x: -x[1])          # concrete failing inputs (verdict 2) are reported first
     for idx, v, o in confirmed[:8]:
         c = cases[idx]
         rep = describe(c, o, layouts[idx])
